@@ -745,3 +745,60 @@ def c04_j(ctx):
 def c04_k(ctx):
     from .base import zero_is_valid_obligation
     zero_is_valid_obligation(ctx, ['batch_index', 'threshold'])
+
+
+SCHEDULE_COUNTERS = ('submission_index', 'num_submissions')
+# where these may appear: the counter itself (initialised, incremented) and the meta record that
+# hands it to user operations for *naming* things (file names in examples/bdm.py)
+_COUNTER_SITES = {
+    ('elfi.model.elfi_model:ComputationContext.__init__', 'num_submissions'): 'initialised to 0',
+    ('elfi.client:BatchHandler.submit', 'num_submissions'): 'incremented per submission',
+    ('elfi.loader:AdditionalNodesLoader.load', 'num_submissions'): 'copied into the meta record',
+    ('elfi.loader:AdditionalNodesLoader.load', 'submission_index'): 'key of the meta record',
+}
+
+
+def schedule_counter_sweep(ctx):
+    """Every mention of the submission counter in the package (outside examples).  The counter
+    also counts speculative batches that are cancelled later, so its value depends on the
+    completion order: it may be handed to user code as meta information, never used to compute
+    anything the library returns or seeds."""
+    n = 0
+    for m in ctx.repo.modules.values():
+        if not m.name.startswith('elfi') or m.name.startswith('elfi.examples'):
+            continue
+        for f in m.all_functions:
+            fnode = getattr(f, 'node', None)
+            if fnode is None or isinstance(fnode, ast.Lambda):
+                continue
+            for x in own_nodes(fnode):
+                name = None
+                if isinstance(x, ast.Attribute) and x.attr in SCHEDULE_COUNTERS:
+                    name = x.attr
+                elif isinstance(x, ast.Constant) and x.value in SCHEDULE_COUNTERS:
+                    name = x.value
+                elif isinstance(x, ast.keyword) and x.arg in SCHEDULE_COUNTERS:
+                    name = x.arg
+                if name is None:
+                    continue
+                n += 1
+                why = _COUNTER_SITES.get((f.qname, name))
+                ctx.check(why is not None, f, 'use of the schedule-dependent counter `{}`'
+                          .format(name), why or '',
+                          '`{}` is read in {}: the counter also counts submissions that were '
+                          'cancelled, so whatever is computed from it depends on the order in '
+                          'which workers finished'.format(name, f.qname.split(':')[-1]), fn=f,
+                          node=x if hasattr(x, 'lineno') else fnode)
+    return n
+
+
+@obligation('C04-l', 'T10 T2', 'the submission counter (which also counts cancelled speculative '
+            'batches) is only maintained and handed on as meta information; nothing is computed '
+            'from it', floor=4,
+            necessary='a seed or value derived from the number of submissions differs between a '
+                      'schedule that cancelled batches and one that did not')
+def c04_l(ctx):
+    n = schedule_counter_sweep(ctx)
+    if n < 4:
+        ctx.undecided('expected the four known sites of the submission counter, found {}'
+                      .format(n))
